@@ -110,3 +110,21 @@ func C08LongList() {
 	sym.Assert(err != nil, "truncated-long-list")
 	sym.Reach("cut-checked")
 }
+
+// C07TypedData: typed data for composite signatures (the signature text is concrete, so that all the
+// symbolic bytes go to the data): dynamic values nested in tuples, maps and lists — whose inner
+// signature and length fields are the input's to choose —, raw data and strings at every level.
+func C07TypedData() {
+	sigs := []string{"m", "(m)", "{sm}", "[m]", "(sm)", "[(m)]", "{Im}", "(r)", "[r]", "{sr}", "(mm)", "[[m]]", "([s])", "{s[r]}"}
+	sig := sigs[sym.Choose("sig", len(sigs))]
+	body := sym.Bytes("body", sym.Choose("n", 15))
+	in := append(zzStr(sig), body...)
+	sym.Bounded(16<<20+64*len(in), len(in)+8, func() {
+		_, err := NewValue(bytes.NewReader(in))
+		if err == nil {
+			sym.Reach("decoded")
+		} else {
+			sym.Reach("rejected")
+		}
+	})
+}
